@@ -150,6 +150,15 @@ AttrOf(v, a) ==
 
 (* Expression evaluation: set-valued big-step semantics.  A result is      *)
 (* [r |-> value or Exc, ev |-> sequence of call events].                   *)
+\* `attrs` is bound -- by an alias in the generated code, established as the first of the element's
+\* definitions, not by the scope -- to the static attributes of the innermost enclosing element
+RECURSIVE AttrsFrame(_)
+AttrsFrame(n) ==
+  IF n < 1 THEN 0
+  ELSE IF ctl[n].i > 0 /\ ctl[n].kind \in {"elem", "macro", "fill"}
+          /\ (n < Len(ctl) \/ ctl[n].st \notin {"oe", "nbegin", "imacro", "ds", "fb"})
+       THEN ctl[n].i ELSE AttrsFrame(n - 1)
+
 RECURSIVE EvAll(_, _), EvPipe(_, _, _), EvStr(_, _, _)
 
 EvAll(e, L) ==
@@ -172,6 +181,12 @@ EvAll(e, L) ==
                                  ELSE [t |-> "errfield", f |-> e.f, c |-> L["error"].c, site |-> L["error"].site],
                            ev |-> <<>>] }
     [] e.x = "dflt"  -> { [r |-> VDefault, ev |-> <<>>] }
+    \* attrs['name']: a static attribute of the innermost element whose definitions are in effect
+    [] e.x = "attrs" -> { [r |-> LET i == AttrsFrame(Len(ctl)) IN
+                                 IF i = 0 THEN Exc("NameError")
+                                 ELSE IF \E n \in 1..Len(items[i].sattr) : items[i].sattr[n].n = e.n
+                                 THEN items[i].sattr[CHOOSE n \in 1..Len(items[i].sattr) : items[i].sattr[n].n = e.n].val
+                                 ELSE Exc("KeyError"), ev |-> <<>>] }
     [] e.x = "wrap"  -> EvAll(e.e, L)      \* lambda / comprehension / conditional ...: identity
     \* sorted(E.keys()): attribute lookup comes first, so a key named like a
     \* method of the dictionary does not hide the method
@@ -363,6 +378,20 @@ KText ==    \* visit_Text / visit_Interpolation, one part per step
                          /\ UNCHANGED exc
                  /\ UNCHANGED <<envs, glob, rep, cells, res>>
   /\ UNCHANGED <<pid, mx>>
+
+KCode ==    \* visit_CodeBlock: <?python n = expr ?> assigns in the variable scope; nothing is restored
+  /\ Running /\ F.st = "kids" /\ F.c < KidsEnd /\ items[F.c].k = "code"
+  /\ LET cb == items[F.c]
+         site == Site(F.c, "code", 0)
+     IN \E a \in EvAll(cb.e, LookupAll) :
+          /\ log' = log \o EvLog(site, a)
+          /\ tok' = site
+          /\ IF IsExc(a.r)
+             THEN /\ RaiseAt(site, a.r.c) /\ UNCHANGED <<ctl, envs>>
+             ELSE /\ envs' = SetLocal(envs, cb.n, a.r)
+                  /\ ctl' = SetF([F EXCEPT !.c = F.c + 1, !.j = 1])
+                  /\ UNCHANGED exc
+  /\ UNCHANGED <<pid, mx, glob, rep, cells, out, res>>
 
 KDone ==    \* children exhausted
   /\ Running /\ F.st = "kids" /\ F.c = KidsEnd
@@ -959,7 +988,7 @@ STransEnd ==    \* visit_Translate: compute the message id, call the translation
 
 -----------------------------------------------------------------------------
 Next ==
-  \/ KEnter \/ KText \/ KDone
+  \/ KEnter \/ KText \/ KCode \/ KDone
   \/ SOe \/ SDef \/ SCase \/ SCond \/ SRep \/ SIter \/ SSw \/ SRepl \/ SOmit
   \/ SStag \/ SDicts \/ SAttr \/ SStagEnd \/ SCont \/ SEtag \/ SLoop \/ SUndef \/ SDone
   \/ Unwind \/ SFb
